@@ -125,6 +125,30 @@ def main(chk):
           chk.violation(key, f'Bidirectional outputs for length {n}: forward {fwd} backward {bwd}, documented re-indexing {want_f} / {want_b}', {})
           break
 
+    # nnx.Bidirectional: a call-time time_major reaches both directions
+    for tm in (False, True):
+      key = f'C13:nnx-bidirectional:T={T}:time_major-at-call={tm}'
+      try:
+        inp = x.transpose(1, 0, 2) if tm else x
+        nb = nnx.Bidirectional(nnx.RNN(NTracer()), nnx.RNN(NTracer()))
+        (cf, cb), ys = nb(jnp.asarray(inp), seq_lengths=jnp.asarray(ns), time_major=tm, return_carry=True)
+        ys = np.asarray(ys)
+        if tm:
+          ys = ys.transpose(1, 0, 2)
+      except Exception as e:
+        chk.violation(key, f'raised {type(e).__name__}: {str(e)[:160]}', {})
+        continue
+      chk.count(key)
+      for bi, n in enumerate(ns):
+        fwd = [int(round(float(ys[bi, i, 0]))) for i in range(n)]
+        bwd = [int(round(float(ys[bi, i, 1]))) for i in range(n)]
+        want_f = [int(''.join(str(t + 1) for t in range(i + 1))) for i in range(n)]
+        want_b = [int(''.join(str(t + 1) for t in range(n - 1, i - 1, -1))) for i in range(n)]
+        carries = (int(round(float(np.asarray(cf)[bi, 0]))), int(round(float(np.asarray(cb)[bi, 0]))))
+        if fwd != want_f or bwd != want_b or carries != (want_f[-1], want_b[0]):
+          chk.violation(key, f'nnx.Bidirectional (time_major={tm} at call time), length {n}: forward {fwd} backward {bwd} carries {carries}; '
+                             f'documented re-indexing {want_f} / {want_b}', {})
+          break
     # call-time return_carry on a Bidirectional built with the default: both carries stop at the valid length
     for tm in (False, True):
       key = f'C13:bidirectional:return_carry-at-call:T={T}:time_major={tm}'
@@ -175,6 +199,46 @@ def main(chk):
         if not np.allclose(np.stack(outs, 1), np.asarray(y1)[:1], rtol=1e-5, atol=1e-5) or \
            not all(np.allclose(a[:1], b, rtol=1e-5, atol=1e-5) for a, b in zip(jax.tree_util.tree_leaves(c1), jax.tree_util.tree_leaves(carry))):
           chk.violation(key + ':stepwise', 'feeding the sequence one step at a time through the cell differs from RNN', {})
+
+  # every cell follows its documented recurrence (float64 reference from the layer's own parameters, one step, non-zero carry)
+  sig = lambda a: 1.0 / (1.0 + np.exp(-a))
+
+  def dense(pp, name, a):
+    out = a @ np.asarray(pp[name]['kernel'], np.float64)
+    return out + np.asarray(pp[name]['bias'], np.float64) if 'bias' in pp[name] else out
+  xs1 = rs.randn(2, D)
+  h0 = rs.randn(2, H) * 0.5
+  c0 = rs.randn(2, H) * 0.5
+  recs = {
+      'SimpleCell': (nn.SimpleCell(H), lambda pp: np.tanh(dense(pp, 'i', xs1) + dense(pp, 'h', h0))),
+      'SimpleCell(residual)': (nn.SimpleCell(H, residual=True), lambda pp: np.tanh(dense(pp, 'i', xs1) + dense(pp, 'h', h0) + h0)),
+      'GRUCell': (nn.GRUCell(H), lambda pp: (lambda r, z: (1 - z) * np.tanh(dense(pp, 'in', xs1) + r * dense(pp, 'hn', h0)) + z * h0)(
+          sig(dense(pp, 'ir', xs1) + dense(pp, 'hr', h0)), sig(dense(pp, 'iz', xs1) + dense(pp, 'hz', h0)))),
+      'LSTMCell': (nn.LSTMCell(H), None),
+  }
+  for name, (cell, ref) in recs.items():
+    key = f'C13:recurrence:{name}'
+    chk.count(key)
+    try:
+      carry0 = (jnp.asarray(c0, jnp.float32), jnp.asarray(h0, jnp.float32)) if name == 'LSTMCell' else jnp.asarray(h0, jnp.float32)
+      if name.startswith('SimpleCell(res'):
+        xin = jnp.asarray(rs.randn(2, H), jnp.float32)      # residual cells need input features = hidden features? no: only the carry is added
+      v = cell.init(jax.random.key(5), carry0, jnp.asarray(xs1, jnp.float32))
+      new_carry, y = cell.apply(v, carry0, jnp.asarray(xs1, jnp.float32))
+      pp = v['params']
+      if name == 'LSTMCell':
+        i = sig(dense(pp, 'ii', xs1) + dense(pp, 'hi', h0)); f = sig(dense(pp, 'if', xs1) + dense(pp, 'hf', h0))
+        g = np.tanh(dense(pp, 'ig', xs1) + dense(pp, 'hg', h0)); o = sig(dense(pp, 'io', xs1) + dense(pp, 'ho', h0))
+        cn = f * c0 + i * g
+        want = o * np.tanh(cn)
+        ok = np.allclose(np.asarray(new_carry[0]), cn, rtol=1e-4, atol=1e-5) and np.allclose(np.asarray(y), want, rtol=1e-4, atol=1e-5)
+      else:
+        want = ref(pp)
+        ok = np.allclose(np.asarray(y), want, rtol=1e-4, atol=1e-5) and np.allclose(np.asarray(new_carry), want, rtol=1e-4, atol=1e-5)
+      if not ok:
+        chk.violation(key, f'{name}: one step differs from the documented recurrence (max abs err {np.abs(np.asarray(y) - want).max():.3g})', {})
+    except Exception as e:
+      chk.violation(key, f'raised {type(e).__name__}: {str(e)[:160]}', {})
 
   # ------------------------------------------------------------------------------------------------ attention
   ra = tlc.require_ok(tlc.run('SeqIndex', 'SeqIndex_attn.cfg', workers=1, timeout=900), 'SeqIndex attn')
